@@ -27,7 +27,7 @@ OPTIONS = [[True, True], [False, True], [True, False], [False, False]]
 def bounds(tier):
     if tier == "quick":
         return ("4 graph builders x 4 option settings (remove machine / job nodes): ordered shapes <=3 jobs <=3 ops and (2,2),(2,1,1), all "
-                "assignments M<=2; flexible M<=2 on <=3 ops (default options); filter none and dominated (default options); M=3 on <=3 ops; all histories")
+                "assignments M<=2; flexible M<=2 on <=3 ops (default options); filter none and dominated (default options); M=3 (up to renaming) on <=4 ops; all histories")
     return "quick + all shapes with 4 ops all options, 5 ops M<=3 up to renaming (default options), flexible on 4 ops"
 
 
@@ -44,7 +44,7 @@ def subspaces(tier):
             out += C.structure_subspaces(s3 if tier == "quick" else s4, 2, False, builder=b, options=opt, filter="none")
         out += C.structure_subspaces(D.shapes(3, 3), 2, True, only_flexible=True, builder=b, options=[True, True], filter="none")
         out += C.structure_subspaces(s3, 2, False, builder=b, options=[True, True], filter="dominated")
-        out += [sp for sp in C.structure_subspaces(D.shapes(3, 3), 3, False, canonical=True, builder=b, options=[True, True], filter="none")
+        out += [sp for sp in C.structure_subspaces(D.shapes(3, 4), 3, False, canonical=True, builder=b, options=[True, True], filter="none")
                 if max(m[0] for m in sp["machines"]) == 2]
     for b in BUILDERS:
         out += C.structure_subspaces(D.shapes(3, 3), 2, False, canonical=True, builder=b, options=[True, True], filter="none", second=True)
